@@ -2,9 +2,11 @@ package sim
 
 import (
 	"bytes"
+	"encoding/binary"
 	"encoding/hex"
 	"encoding/json"
 	"fmt"
+	"sort"
 
 	"github.com/syndtr/goleveldb/leveldb/comparer"
 	"github.com/syndtr/goleveldb/leveldb/filter"
@@ -110,7 +112,7 @@ type Knobs struct {
 	BlockSize           int     `json:"bs"`
 	RestartInterval     int     `json:"ri"`
 	NoCompression       bool    `json:"nocomp,omitempty"`
-	FilterBits          int     `json:"fbits,omitempty"` // 0 = no filter
+	FilterBits          int     `json:"fbits,omitempty"` // 0 = no filter, >0 bloom bits per key, <0 the hash-set policy
 	FilterBaseLg        int     `json:"fbase,omitempty"`
 	AltFilterBits       []int   `json:"alt,omitempty"`
 	BlockCache          int     `json:"bc"`  // -1 disabled, 0 default
@@ -312,12 +314,58 @@ func (k *Knobs) Options() *opt.Options {
 	if k.NoCompression {
 		o.Compression = opt.NoCompression
 	}
-	if k.FilterBits > 0 {
-		o.Filter = filter.NewBloomFilter(k.FilterBits)
+	if k.FilterBits != 0 {
+		o.Filter = filterByBits(k.FilterBits)
 	}
 	o.FilterBaseLg = k.FilterBaseLg
 	for _, b := range k.AltFilterBits {
-		o.AltFilters = append(o.AltFilters, filter.NewBloomFilter(b))
+		o.AltFilters = append(o.AltFilters, filterByBits(b))
 	}
 	return o
+}
+
+// filterByBits: positive = the built-in bloom filter with that many bits per
+// key; negative = hsFilter, a policy with another name and another encoding.
+func filterByBits(b int) filter.Filter {
+	if b < 0 {
+		return hsFilter{}
+	}
+	return filter.NewBloomFilter(b)
+}
+
+// hsFilter is a second, exact filter policy: the sorted 32-bit hashes of the
+// keys. Its name differs from the bloom filter's, and each policy misreads the
+// other's blocks, so a table written under one must never be consulted
+// through the other.
+type hsFilter struct{}
+
+func (hsFilter) Name() string { return "verif.HashSetFilter" }
+
+func hsHash(key []byte) uint32 {
+	h := uint32(2166136261)
+	for _, b := range key {
+		h = (h ^ uint32(b)) * 16777619
+	}
+	return h
+}
+
+func (hsFilter) Contains(f, key []byte) bool {
+	h := hsHash(key)
+	n := len(f) / 4
+	i := sort.Search(n, func(i int) bool { return binary.BigEndian.Uint32(f[i*4:]) >= h })
+	return i < n && binary.BigEndian.Uint32(f[i*4:]) == h
+}
+
+func (hsFilter) NewGenerator() filter.FilterGenerator { return &hsGen{} }
+
+type hsGen struct{ hs []uint32 }
+
+func (g *hsGen) Add(key []byte) { g.hs = append(g.hs, hsHash(key)) }
+
+func (g *hsGen) Generate(b filter.Buffer) {
+	sort.Slice(g.hs, func(i, j int) bool { return g.hs[i] < g.hs[j] })
+	for _, h := range g.hs {
+		binary.BigEndian.PutUint32(b.Alloc(4), h)
+	}
+	g.hs = g.hs[:0]
 }
